@@ -229,10 +229,27 @@ def run(rep, facts):
         rep.violation("R11.2", "stream/abort-origin", "Error::AbortRequest is constructed in %s" % sorted(set(sites_abort)))
 
 
+def run_reply_survives(rep, facts):
+    """R11.7: the reply to a mid-Params abort is parser output; it reaches the wire only if the async layer flushes the request
+    parser's output before converting the parser (the conversion clears it) -- rule R8.2 of C08, re-evaluated."""
+    from . import c08
+    rep.rule("R11.7", "the request parser's reply buffer (which holds the EndRequest answering a mid-Params abort) is flushed on every path before "
+                      "into_stream_parser / into_request_parser (R8.2)")
+    sr = check.Report("tmp", "quick")
+    c08.run(sr, facts)
+    n = 0
+    for i in sr.instances:
+        if i["rule"] == "R8.2" or (i["rule"].startswith("R8.2")):
+            n += 1
+            (rep.ok if i["status"] == "ok" else rep.violation)("R11.7", i["instance"], i["detail"], i["loc"])
+    rep.floor("R11.7", "parser conversions checked", n, 2)
+
+
 def main(rep, tier):
     f = F.load(("async", "http"))
     rep.configs.append({"features": "async,http", "profile": "debug", "bodies": len(f.bodies)})
     check.guard(rep, "R11", run, f)
+    check.guard(rep, "R11.7", run_reply_survives, f)
     rep.floor("R11", "links", len([i for i in rep.instances if i["status"] == "ok"]), 12)
     return rep.finish(
         "The abort chain as table rows and ordering facts: parser dispatch rows for AbortRequest (both parsers, all three states), the "
